@@ -175,8 +175,8 @@ EXPORT errno_t _getenv_s_chk(size_t *restrict len, char *restrict dest,
 #else
             *len = len1;
 #endif
-        if (dest)
-            strcpy_s(dest, dmax, buf);
+        if (dest && dmax) /* dmax 0: length query, nothing to copy */
+            _strcpy_s_chk(dest, dmax, buf, destbos);
     }
 
     return EOK;
